@@ -20,6 +20,7 @@ type C13Case struct {
 	DefBuf  int   // default caller buffer
 	DefFrag int   // default source fragment (0 = as much as fits)
 	EOFLast bool  // uniform schedules: deliver the last fragment together with io.EOF
+	AltBuf  int   `json:",omitempty"` // > 0: the caller alternates between DefBuf and AltBuf
 	Choices []int `json:",omitempty"`
 }
 
@@ -118,7 +119,7 @@ func c13Body(r *core.Run, s Stream, p C13Case, x *core.X) {
 		return core.MkCase("C13", "schedule", q)
 	}
 	desc := func() string {
-		return fmt.Sprintf("stream %s defaults(buf=%d,frag=%d,eofLast=%v) deviations: %v", s.Name, p.DefBuf, p.DefFrag, p.EOFLast, x.Log)
+		return fmt.Sprintf("stream %s defaults(buf=%d,alternating with %d,frag=%d,eofLast=%v) deviations: %v", s.Name, p.DefBuf, p.AltBuf, p.DefFrag, p.EOFLast, x.Log)
 	}
 	var out []byte
 	var trace []string
@@ -132,10 +133,13 @@ func c13Body(r *core.Run, s Stream, p C13Case, x *core.X) {
 			trace = append(trace, "open:"+errStr(err))
 			return
 		}
-		buf := make([]byte, maxInt(4096, p.DefBuf))
+		buf := make([]byte, maxInt(4096, maxInt(p.DefBuf, p.AltBuf)))
 		zeroNil := 0
 		for step := 0; step < 100000; step++ {
 			size := p.DefBuf
+			if p.AltBuf > 0 && step%2 == 1 {
+				size = p.AltBuf
+			}
 			// caller-side deviations: 0-byte and 1-byte buffers
 			alts := []int{size}
 			alts = append(alts, 0)
@@ -217,7 +221,7 @@ func runC13(r *core.Run) {
 	if v := os.Getenv("VERIF_C13_BOUND"); v != "" {
 		fmt.Sscan(v, &bound)
 	}
-	r.Rule = fmt.Sprintf("streams of all three formats with many boundaries in few bytes; (1) uniform schedules: caller buffer in {1,2,3,5,4096} x source fragment in {1,2,3,all} x last fragment with/without io.EOF; (2) deviation-bounded schedules (bound %d) around defaults (4096,all) and (7,all): at EVERY caller Read a 0- or 1-byte buffer, at EVERY source Read a 1-byte answer or data together with io.EOF; after EOF three more non-empty reads and one empty read. states = (format, deviations used); non-trivial = distinct (stream, observed (n,err) sequence)", bound)
+	r.Rule = fmt.Sprintf("streams of all three formats with many boundaries in few bytes; (1) uniform schedules: caller buffer in {1,2,3,5,4096} x source fragment in {1,2,3,all} x last fragment with/without io.EOF; two alternating buffer sizes from {1,100,255,256,257,4096}; (2) deviation-bounded schedules (bound %d) around defaults (4096,all) and (7,all): at EVERY caller Read a 0- or 1-byte buffer, at EVERY source Read a 1-byte answer or data together with io.EOF; after EOF three more non-empty reads and one empty read. states = (format, deviations used); non-trivial = distinct (stream, observed (n,err) sequence)", bound)
 	streams := readerStreams(level)
 	totalExec, totalPoints := int64(0), int64(0)
 	complete := true
@@ -231,6 +235,17 @@ func runC13(r *core.Run) {
 					core.Replay(func(x *core.X) { c13Body(r, s, p, x) }, nil)
 					totalExec++
 				}
+			}
+		}
+		// (1b) two alternating caller buffer sizes (a short and a long read next to each other)
+		for _, a := range []int{1, 100, 255, 256, 257, 4096} {
+			for _, b := range []int{1, 100, 255, 256, 257, 4096} {
+				if a == b {
+					continue
+				}
+				p := C13Case{Stream: s.Name, Level: level, DefBuf: a, AltBuf: b}
+				core.Replay(func(x *core.X) { c13Body(r, s, p, x) }, nil)
+				totalExec++
 			}
 		}
 		// (2) deviation-bounded
@@ -309,6 +324,15 @@ func runC13(r *core.Run) {
 				p := C13Case{Stream: s.Name, Level: level, DefBuf: b, DefFrag: f}
 				core.Replay(func(x *core.X) { c13Body(r, s, p, x) }, nil)
 				totalExec++
+			}
+		}
+		for _, a := range []int{1, 100, 255, 256, 257, 4096, 5000} {
+			for _, b := range []int{100, 255, 256, 257, 4096, 5000} {
+				if a != b {
+					p := C13Case{Stream: s.Name, Level: level, DefBuf: a, AltBuf: b}
+					core.Replay(func(x *core.X) { c13Body(r, s, p, x) }, nil)
+					totalExec++
+				}
 			}
 		}
 		p := C13Case{Stream: s.Name, Level: level, DefBuf: 4096}
